@@ -608,13 +608,17 @@ theorem used_flag {u : Bool} {d : MDecl} {ob : Option Binding} {g : Nat} {e : En
 
 /-! ## entry_named_and_defined -/
 
-/-- Each reported stage names the function the emitted source defines for it, with the reported thread
-    group size — on every target, whatever the name generator did to the entry function's name: HLSL reports
-    the exporter's generated name (since fix "report the emitted name of HLSL entry points"), Metal the fixed
-    name of its generated entry function (the two name tables agree). -/
+/-- Each reported stage names the function the emitted source defines for it, and the reported thread group
+    size is the value of the **last** thread group size attribute that function is emitted with (`none` when it has
+    none) — on every target and for every stage kind, whatever the name generator did to the entry function's name:
+    HLSL reports the exporter's generated name (since fix "report the emitted name of HLSL entry points"), Metal the
+    fixed name of its generated entry function (the two name tables agree).  When the function carries exactly one
+    attribute, reported = emitted. -/
 theorem entry_named_and_defined (msl : Bool) (funcs : List FuncDef) (s : StageDef) (r : StageOut)
     (h : reportStage msl funcs s = some r) :
-    emittedStage msl funcs s = some (r.entryPoint, r.threadGroupSize) ∧ r.stage = s.stage := by
+    ∃ attrs, emittedStage msl funcs s = some (r.entryPoint, attrs) ∧ r.stage = s.stage ∧
+      r.threadGroupSize = lastNumThreads attrs ∧ (∀ t, attrs = [t] → r.threadGroupSize = some t) ∧
+      (attrs = [] → r.threadGroupSize = none) := by
   unfold reportStage at h
   unfold emittedStage
   cases hf : funcs[s.entry]? with
@@ -622,12 +626,26 @@ theorem entry_named_and_defined (msl : Bool) (funcs : List FuncDef) (s : StageDe
   | some f =>
     simp only [hf, Option.some.injEq] at h ⊢
     subst h
-    cases msl with
-    | true => simp [msl_entry_names_agree]
-    | false => simp
+    refine ⟨f.attrs, ?_, rfl, rfl, ?_, ?_⟩
+    · cases msl with
+      | true => simp [msl_entry_names_agree]
+      | false => simp
+    · intro t ht; simp [ht, lastNumThreads]
+    · intro ht; simp [ht, lastNumThreads]
+
+/-- The front end accepts several `[numthreads]` attributes on one function; the stage then reports the last one
+    while the emitted function carries all of them: with two different attributes the emitted source has no
+    single thread group size the report could agree with (negation witness for "reported = emitted" beyond
+    single-attribute functions; replayed on the real compiler by corpus requests with `nt3`). -/
+theorem thread_group_size_ambiguous_witness :
+    ∃ (funcs : List FuncDef) (s : StageDef) (r : StageOut) (attrs : List (Nat × Nat × Nat)) (t : Nat × Nat × Nat),
+      reportStage false funcs s = some r ∧ emittedStage false funcs s = some (r.entryPoint, attrs) ∧
+      t ∈ attrs ∧ r.threadGroupSize ≠ some t :=
+  ⟨[{ name := "cs_0", emitted := "cs_0", attrs := [(9, 4, 1), (8, 4, 1)] }], { stage := .Compute, entry := 0 },
+   ⟨.Compute, "cs_0", some (8, 4, 1)⟩, [(9, 4, 1), (8, 4, 1)], (9, 4, 1), rfl, rfl, by simp, by simp⟩
 
 /-- the renamed entry point of the former defect: reported and emitted names are both `float16_t_0` -/
-example : reportStage false [{ name := "float16_t", emitted := "float16_t_0", numthreads := some (8, 4, 1) }]
+example : reportStage false [{ name := "float16_t", emitted := "float16_t_0", attrs := [(8, 4, 1)] }]
       { stage := .Compute, entry := 0 } = some ⟨.Compute, "float16_t_0", some (8, 4, 1)⟩ := rfl
 
 /-! Non-vacuity of the hypotheses above. -/
